@@ -47,7 +47,8 @@ func freshKey(w *World, salt uint64) ed25519.PrivateKey {
 }
 
 var c09Kinds = []string{"payload-byte-flipped", "payload-truncated", "signature-bit-flipped", "signature-truncated", "signature-empty",
-	"sender-renamed-to-other-participant", "sender-renamed-to-stranger", "resigned-with-other-participants-key", "resigned-with-fresh-key"}
+	"sender-renamed-to-other-participant", "sender-renamed-to-stranger", "resigned-with-other-participants-key", "resigned-with-fresh-key",
+	"forged-in-the-name-and-id-of-another-participant"}
 
 // mutateAuth produces an unauthenticated variant of a genuine message.
 func mutateAuth(w *World, m storage.Message, by int, kind string) storage.Message {
@@ -112,6 +113,24 @@ func mutateAuth(w *World, m storage.Message, by int, kind string) storage.Messag
 			x.Data[len(x.Data)/2] ^= 0x01
 		}
 		x.Signature = ed25519.Sign(w.Nodes[other].Priv, x.Bytes())
+	case "forged-in-the-name-and-id-of-another-participant":
+		// sender AND claimed participant id are those of participant P; signed by
+		// somebody else (the original sender or a fresh key): only P's key may speak for P
+		if d := w.Nodes[other].Inc(); d != nil {
+			for _, r := range []string{m.DkgRoundID} {
+				if dump := w.Nodes[other].Dump(r); dump != nil {
+					if id, ok := dump.Payload.IDs[w.Nodes[other].Name]; ok {
+						x.Data = pidRe.ReplaceAll(x.Data, []byte(fmt.Sprintf(`"ParticipantId":%d`, id)))
+					}
+				}
+			}
+		}
+		x.SenderAddr = w.Nodes[other].Name
+		if w.Tape.Bool(1, 2, "freshOrOriginal") {
+			x.Signature = ed25519.Sign(freshKey(w, uint64(len(w.Board.Msgs))+7), x.Bytes())
+		} else {
+			x.Signature = ed25519.Sign(w.Nodes[by].Priv, x.Bytes())
+		}
 	case "resigned-with-fresh-key":
 		if len(x.Data) > 0 {
 			x.Data[len(x.Data)/2] ^= 0x01
